@@ -161,11 +161,18 @@ fn ramp(family: usize, d: usize) -> String {
         10 => format!("local x = {}\"{}\"{}\n", "{ ".repeat(d), "long element ".repeat(11), " }".repeat(d)),
         11 => format!("local x = {}1{}\n", "{ key = ".repeat(d), " }".repeat(d)),
         12 => format!("local x = {}1{}\n", "{ a, { b }, ".repeat(d), " }".repeat(d)),
-        _ => format!("local x = {}1{}\n", "t[".repeat(d), "]".repeat(d)),
+        13 => format!("local x = {}1{}\n", "t[".repeat(d), "]".repeat(d)),
+        // Luau (families >= 14 are formatted under the Luau syntax)
+        14 => format!("type T = {}number{}\n", "(x: ".repeat(d), ") -> ()".repeat(d)),
+        15 => format!("type T = {}number{}\n", "Array<".repeat(d), ">".repeat(d)),
+        16 => format!("type T = {}number{}\n", "{ field: ".repeat(d), " }".repeat(d)),
+        17 => format!("local x = {}1{}\n", "if c then (".repeat(d), ") else 0".repeat(d)),
+        18 => format!("type T = {}nil{}\n", "(() -> ".repeat(d), ")?".repeat(d)),
+        _ => format!("local x = {}v{}\n", "(".repeat(d), " :: any)".repeat(d)),
     }
 }
 
-const N_RAMP_FAMILIES: usize = 14;
+const N_RAMP_FAMILIES: usize = 20;
 const RAMP_WIDTHS: [usize; 3] = [120, 40, 1];
 const N_RAMPS: usize = N_RAMP_FAMILIES * 3;
 
@@ -277,7 +284,7 @@ pub fn run_item(w: &Work, ctx: &mut Ctx, mut i: usize) {
         let mut d = 4;
         while d <= dmax && ctx.findings.len() == findings_before {
             let src = ramp(i, d);
-            let mut c = Cfg::with_syntax("Lua51");
+            let mut c = Cfg::with_syntax(if i >= 14 { "Luau" } else { "Lua51" });
             c.column_width = wd;
             if let Some(t) = total(ctx, &format!("c07:ramp:{i}{wtag}:d{d}"), &src, &c, None, &fam) {
                 series.push((d, t));
